@@ -203,10 +203,21 @@ func SendNode(nc *nats.Conn, node data.NodeEdge, origin string) error {
 		return fmt.Errorf("Error sending node: %v", err)
 	}
 
-	if len(node.EdgePoints) <= 0 {
-		// edge should always have a tombstone point, set to false for root node
-		node.EdgePoints = []data.Point{{Time: time.Now(),
-			Type: data.PointTypeTombstone, Origin: origin}}
+	hasTombstone := false
+	for _, p := range node.EdgePoints {
+		if p.Type == data.PointTypeTombstone && (p.Key == "" || p.Key == "0") {
+			hasTombstone = true
+			break
+		}
+	}
+
+	if !hasTombstone {
+		// edge should always have a tombstone point, set to false for root node.
+		// A node that carries other edge points (a role, ...) but no tombstone
+		// point needs it too, otherwise a node that was deleted earlier stays
+		// deleted when it is sent again (import of an export over a deleted copy).
+		node.EdgePoints = append(node.EdgePoints, data.Point{Time: time.Now(),
+			Type: data.PointTypeTombstone, Origin: origin})
 	}
 
 	node.EdgePoints = append(node.EdgePoints, data.Point{
